@@ -1,4 +1,8 @@
 import SamplyModel.Lemmas.PanicKernels
+import SamplyModel.Lemmas.C08Tied
+import SamplyModel.Lemmas.BreakpadServe
+import SamplyModel.Props.C10
+import SamplyModel.Props.C07
 /-!
 # C08 — no request and no Breakpad symbol file can crash the symbolication API  (**partial**)
 
@@ -159,6 +163,183 @@ theorem C08_kernels_total_special_path (s : List UInt8) (h : asciiFollow s = tru
 /-- … which holds for every string of UTF-8 shape, hence for every Rust `&str`. -/
 theorem C08_utf8_gives_ascii_follow (s : List UInt8) (h : utf8Shape s = true) : asciiFollow s = true :=
   utf8Shape_asciiFollow s h
+
+/-! ### Improvement round: the same facts on the models that are tied to the code value-for-value
+
+`Asm.*` is driven by C20's harness (request arithmetic, read, decode loop, against the real `/asm/v1`),
+`LB.*` / `BP.*` by C10's (line buffer, index creator, `.symindex` (de)serialisation, `lookup_sync`) and — for
+stored indexes that are stale or corrupted, with the memo tables of the symbol map — by C08's own `bpmap`
+operation (`BPC.serve`); `Sym.queryApi` by C07's. The theorems below restate C08's clauses on those models, so
+that they stop being statements about models tied "by reading only". -/
+
+/-- **`/asm/v1` length arithmetic, tied.** The panic kernel `asmPlan` (explicit `panic` at the `u32`
+subtraction and addition) computes, for every request, exactly the plan of the model that C20 compares with
+the real code: aligned start, `disassembly_len`, padded read length — and never the `panic` outcome. -/
+theorem C08_asm_plan_tied (a : Asm.Arch) (start size : Nat) (cont : Bool) (fe : Option Nat) :
+    asmPlan (C08T.archOf a) start size cont fe =
+      .ok ⟨Asm.alignStart a start, Asm.disasmLen start size cont fe,
+           Asm.readSize (Asm.disasmLen start size cont fe)⟩ ∧
+    ∀ addr sz, functionEnd addr sz = Asm.fnEnd (some ⟨addr, sz⟩) :=
+  ⟨C08T.asmPlan_eq a start size cont fe, C08T.functionEnd_eq⟩
+
+/-- … hence the value-level bounds hold of the tied model (no silent wrap: the padded read length covers the
+listing length, both stay in `u32`, the listing is never shorter than requested), for every symbol the
+lookup may report. -/
+theorem C08_asm_tied_bounds (a : Asm.Arch) (start size : Nat) (cont : Bool) (sym : Option Asm.Sym)
+    (hs : size ≤ u32Max) :
+    Asm.alignStart a start ≤ start ∧
+    size ≤ Asm.disasmLen start size cont (Asm.fnEnd sym) ∧
+    Asm.disasmLen start size cont (Asm.fnEnd sym) ≤ Asm.readSize (Asm.disasmLen start size cont (Asm.fnEnd sym)) ∧
+    Asm.readSize (Asm.disasmLen start size cont (Asm.fnEnd sym)) ≤ u32Max := by
+  have hf : ∀ e, Asm.fnEnd sym = some e → e ≤ u32Max := by
+    intro e he
+    unfold Asm.fnEnd at he
+    split at he
+    · cases he
+    · split at he
+      · cases he
+      · split at he
+        · cases he; simpa [u32Max, Asm.u32max] using ‹_ ≤ Asm.u32max›
+        · cases he
+  obtain ⟨p, hp, h1, h2, _, h4, h5⟩ := C08_asm_plan_bounds (C08T.archOf a) start size cont (Asm.fnEnd sym) hs hf
+  rw [C08T.asmPlan_eq] at hp
+  cases hp
+  exact ⟨h1, h2, h5, h4⟩
+
+/-- **Decode loop, tied.** `Asm.decode` (the loop C20 compares with the real listing, offset by offset) ends
+with a listing — neither `panic` (`offset += …` in `u32`, `&bytes[offset as usize..]`) nor out of fuel — for
+every decoder oracle that stays inside the slice, every `ADJUST_BY_AFTER_ERROR ≥ 1`, every decode length and
+every slice below 4 GiB − ADJUST; the reported size is at most ADJUST past the slice. -/
+theorem C08_decode_total_tied (adjust decodeLen bytesLen : Nat) (dec : Nat → Asm.Dec)
+    (hor : Asm.OracleOK bytesLen dec) (hadj : 1 ≤ adjust) (hlen : bytesLen + adjust ≤ Asm.u32max) :
+    ∃ items size, Asm.decode adjust decodeLen bytesLen dec = .done items size ∧ size ≤ bytesLen + adjust := by
+  obtain ⟨items, f, h, hf, _⟩ :=
+    C08T.loop_done adjust decodeLen bytesLen dec hor hadj hlen (decodeLen + 1) 0 (Nat.zero_le _) (by omega)
+  exact ⟨items, f, h, hf⟩
+
+/-- **LineBuffer, tied.** For every list of chunks fed to a fresh `LineBuffer` (so, for every intermediate
+state of every feeding): the `assert!` / `current_offset - leftover.len()` of the next `consume` hold and
+`finish` does not underflow. (The `u64` offset additions are not an outcome of `LB`; `C08_kernels_total_linebuffer`
+covers them on `PK.lbRun` for files below 2^64 bytes.) -/
+theorem C08_linebuffer_total_tied (chunks : List (List UInt8)) :
+    LB.consumeSafe (LB.consumeAll LB.St.init chunks).1 = true ∧
+    (LB.finish (LB.consumeAll LB.St.init chunks).1).isSome = true := by
+  have h := C08T.consumeAll_inv LB.St.init chunks (by simp [LB.Inv, LB.St.init])
+  exact ⟨by simpa [LB.consumeSafe, LB.Inv] using h, C08T.finish_isSome _ h⟩
+
+/-- `parse_symindex_file` only accepts files whose two symbol arrays are equally long — the one fact about an
+accepted index (valid, stale or corrupted) that the lookups need. -/
+theorem C08_symindex_accepted_arrays (bytes : List UInt8) (ix : BP.Index)
+    (h : BP.parseSymindex bytes = some ix) : ix.addrs.length = ix.entries.length :=
+  BPC.parseSymindex_lengths bytes ix h
+
+/-- **Clause (f), n records, any index.** A `.sym` text with ARBITRARY contents served together with a stored
+`.symindex` with ARBITRARY contents (valid, built from another file, corrupted, unsorted), then any sequence
+of lookups on the one symbol map (memo tables included): whenever the index is accepted, every lookup returns
+a result or nothing — never the out-of-range `symbol_addresses[index]` / `symbol_entries[index]` — and every
+result satisfies what the API layers compute with it without checking: `symbol.address ≤ address`
+(symbolicate/mod.rs:231 `frame.address - symbol_address`) and a non-empty frame list (:237 `split_last().expect`).
+`BPC.serve` is compared value-for-value with the real code by the `bpmap` operation. -/
+theorem C08_served_lookups_total (text idx : List UInt8) (addrs : List Nat) (ls : List BP.Look)
+    (h : BPC.serve text idx addrs = .looks ls) :
+    ls.length = addrs.length ∧
+    ∀ (k a : Nat), addrs[k]? = some a →
+      ∃ lk : BP.Look, ls[k]? = some lk ∧ lk ≠ BP.Look.panic ∧
+        ∀ r : BP.LookupResult, lk = BP.Look.found r → r.symAddr ≤ a ∧ r.frames ≠ some [] := by
+  unfold BPC.serve at h
+  split at h
+  · cases h
+  · rename_i ix hix
+    split at h
+    · cases h
+    · cases h
+      exact BPC.lookupSeq_spec text ix _ addrs (BPC.parseSymindex_lengths idx ix hix)
+
+/-- **Clause (f) on C10's symbol-map model.** Any text below 2^64 bytes, with or without a stored index of any
+contents: building the map panics only in the excluded region (a self-built index of 4 GiB or more, see
+`C08_symindex_layout_excluded`), in particular never at `parse_symindex_file(..).unwrap()`
+(symbol_map.rs:98/101); and on the map that results, every lookup of every address returns a result or
+nothing, with `symbol.address ≤ address` and a non-empty frame list. -/
+theorem C08_breakpad_map_total (pick : BP.Pick) (text : List UInt8) (stored : Option (List UInt8))
+    (hlen : text.length < BP.pow64) :
+    (BP.mapStored pick text stored = .panic →
+        ∃ ix, BP.preIndex pick [text] = .ix ix ∧ ¬ BP.totalLen ix < BP.pow32) ∧
+    (∀ ix a, BP.mapStored pick text stored = .ok ix →
+        BP.lookup text ix a ≠ .panic ∧
+        ∀ r, BP.lookup text ix a = .found r → r.symAddr ≤ a ∧ r.frames ≠ some []) := by
+  constructor
+  · intro h
+    unfold BP.mapStored at h
+    split at h
+    · cases h
+    · split at h
+      · cases h
+      · exact C10_no_panic pick [text] (C10_self_map_no_unwrap_panic pick text hlen h)
+  · intro ix a h
+    have hl : ix.addrs.length = ix.entries.length := by
+      have hself : BP.mapSelf pick text = .ok ix → ix.addrs.length = ix.entries.length := by
+        intro hs
+        unfold BP.mapSelf at hs
+        split at hs
+        · cases hs
+        · split at hs
+          · cases hs
+          · cases hs
+          · split at hs
+            · cases hs
+            · rename_i bytes _ ix' hp
+              cases hs
+              exact BPC.parseSymindex_lengths _ _ hp
+      unfold BP.mapStored at h
+      split at h
+      · cases h
+      · split at h
+        · rename_i ix' hst
+          cases h
+          cases stored with
+          | none => simp at hst
+          | some b => exact BPC.parseSymindex_lengths b _ (by simpa using hst)
+        · exact hself h
+    exact BPC.lookup_spec text ix a hl
+
+/-- a Breakpad lookup result as the symbolication layer sees it (`SyncAddressInfo`); `nm` / `fr` convert
+names and frames (any functions: demangling and path mapping do not matter here) -/
+def C08_bpInfo (nm : List UInt8 → String) (fr : BP.Frame → Sym.Frame) (r : BP.LookupResult) : Sym.AddrInfo :=
+  ⟨r.symAddr, r.size, nm r.name, match r.frames with | none => .none | some fs => .available (fs.map fr)⟩
+
+/-- **`/symbolicate/v5` over Breakpad files never hits an `unwrap`.** C07's model of `query_api` (every
+`unwrap`, `expect`, slice index and `u32` subtraction an explicit panic site) composed with C10's model of
+`lookup_sync`: if every library that loads is a Breakpad symbol map — of any text and any accepted index,
+valid or stale — then no request of any shape (any number of jobs, repeated / failing libraries, any
+addresses) reaches a panic site. This discharges symbolicate/mod.rs:228/231/237/252 and
+looked_up_addresses.rs:34/44 for the files in C08's quantifier. -/
+theorem C08_symbolicate_over_breakpad_total (look : Sym.Look) (extOrder) (hext : Sym.ExtOrderOk extOrder)
+    (req : Sym.Request) (nm : List UInt8 → String) (fr : BP.Frame → Sym.Frame)
+    (hbp : ∀ lib f, look lib = .ok f → ∃ text ix, ix.addrs.length = ix.entries.length ∧
+      ∀ a, f a = match BP.lookup text ix a with
+                 | .found r => some (C08_bpInfo nm fr r)
+                 | _ => none) :
+    ∀ site, Sym.queryApi look extOrder req ≠ .error (.panic site) := by
+  refine (C07_total look extOrder hext req ?_).2
+  intro lib a f info _ hl hfa
+  obtain ⟨text, ix, hlen, hf⟩ := hbp lib f hl
+  rw [hf a] at hfa
+  obtain ⟨_, hsp⟩ := BPC.lookup_spec text ix a hlen
+  cases hlk : BP.lookup text ix a with
+  | panic => simp [hlk] at hfa
+  | none => simp [hlk] at hfa
+  | found r =>
+    simp only [hlk, Option.some.injEq] at hfa
+    subst hfa
+    obtain ⟨h1, h2⟩ := hsp r hlk
+    refine ⟨h1, ?_⟩
+    simp only [C08_bpInfo]
+    cases hfr : r.frames with
+    | none => simp [Sym.FramesResult.resolved]
+    | some fs =>
+      simp only [Sym.FramesResult.resolved, ne_eq, Option.some.injEq, List.map_eq_nil_iff]
+      intro hnil
+      exact h2 (by rw [hfr, hnil])
 
 /-! ### The three repaired defects: the pre-fix kernels panic on the recorded inputs -/
 
